@@ -244,7 +244,9 @@ func c15Run(c *core.Ctx, idx int) {
 			if r.Bool() {
 				sl = append(sl, next(), next())
 			}
-			src.Push(any(sl))
+			// (placed by Insert at the end rather than by Push: how Push treats a lone slice argument is C01's business,
+			// here the slice has to BE an element of the source whatever Push does)
+			src.Insert(any(sl), src.Len())
 		} else {
 			src.Push(next())
 		}
